@@ -193,7 +193,16 @@ def lean_bool(b):
 
 
 # ------------------------------------------------------------------ the unit
+F_TRANSPORT = "include/iora/network/transport_impl.hpp"
+_REPO = [None]
+
+
+def read_transport(fx):
+    return read(_REPO[0], F_TRANSPORT)
+
+
 def gen(repo):
+    _REPO[0] = repo
     src = read(repo, F)
     facts = extract(src)
     return "IoraModel/Gen/HttpRetry.lean", render(facts)
@@ -222,8 +231,9 @@ def extract(src):
         bases.append((cls, mm.group(1)))
     fx["bases"] = bases
     # ---- public entry points: method literal and default budget
-    entries = []
-    # every function definition whose parameter list names `int retries`: (name, params, body start, body end)
+    # ---- public entry points: every function with an `int retries` parameter other than performRequest itself.
+    # Its body must issue the request through EXACTLY ONE call — performRequest("LITERAL", …, retries) or another entry point
+    # (…, retries) — that is not inside a try block or a loop, with the caller's `retries` passed on unchanged.
     fdefs = []
     for fm in re.finditer(r"\b(\w+)\s*\(", src):
         try:
@@ -235,21 +245,66 @@ def extract(src):
             continue
         b0 = _skip_ws(src, p1 + 1)
         if b0 < len(src) and src[b0] == "{":
-            fdefs.append((fm.group(1), params, b0, cxxscan.match_brace(src, b0)))
-    for mm in re.finditer(r'\bperformRequest\s*\(\s*"([^"]*)"', src):
-        encl = [f for f in fdefs if f[2] < mm.start() < f[3]]
-        if not encl:
-            raise TranslateError("performRequest(\"%s\") call site: no enclosing function with an `int retries` parameter" % mm.group(1))
-        fn = encl[-1]
-        dm = re.search(r"\bint\s+retries\s*=\s*(-?\d+)", fn[1])
+            fdefs.append((fm.group(1), params, src[b0 + 1:cxxscan.match_brace(src, b0)]))
+    names = [f[0] for f in fdefs]
+    if "performRequest" not in names:
+        raise TranslateError("performRequest(…, int retries) not found")
+    if len(set(names)) != len(names):
+        raise TranslateError("two functions with an `int retries` parameter share a name: %s" % sorted(n for n in names if names.count(n) > 1))
+    entry_names = [n for n in names if n != "performRequest"]
+    entries = []
+    for name, params, body in fdefs:
+        if name == "performRequest":
+            continue
+        dm = re.search(r"\bint\s+retries\s*=\s*(-?\d+)\s*$", params.strip())
         if not dm:
-            raise TranslateError("%s: `int retries` has no literal default" % fn[0])
-        if not re.search(r"\bretries\s*\)\s*;", src[mm.start():src.index(";", mm.start()) + 1]):
-            raise TranslateError("%s: the budget passed to performRequest is not the `retries` parameter" % fn[0])
-        entries.append((fn[0], mm.group(1), int(dm.group(1))))
+            raise TranslateError("%s: `int retries` is not the last parameter with a literal default" % name)
+        if re.search(r"\btry\b|\bcatch\b|\bgoto\b", body):
+            raise TranslateError("%s: a public entry point must not contain try/catch (it would re-issue or hide the request)" % name)
+        calls = []
+        for callee in ["performRequest"] + entry_names:
+            for cm in re.finditer(r"(?<![\w.>:])%s\s*\(" % re.escape(callee), body):
+                calls.append((cm.start(), callee, cm.end() - 1))
+        calls.sort()
+        if len(calls) != 1:
+            raise TranslateError("%s: expected exactly one request-issuing call, found %s" % (name, [c[1] for c in calls]))
+        pos, callee, p0 = calls[0]
+        args = split_top(body[p0 + 1:_match_paren(body, p0)], ",")
+        if norm(args[-1]) != "retries":
+            raise TranslateError("%s: the budget passed to %s is `%s`, not the caller's `retries`" % (name, callee, args[-1].strip()))
+        if re.search(r"\bretries\s*(=[^=]|\+\+|--|\+=|-=|\*=)|(\+\+|--)\s*retries\b", body):
+            raise TranslateError("%s: `retries` is modified" % name)
+        # the call must not sit inside a loop
+        for lm in re.finditer(r"\b(for|while|do)\b", body):
+            j = body.find("{", lm.end())
+            if lm.group(1) != "do" and j >= 0:
+                pe = _match_paren(body, body.find("(", lm.end()))
+                j = _skip_ws(body, pe + 1)
+            if j >= 0 and j < len(body) and body[j] == "{":
+                if j < pos < cxxscan.match_brace(body, j):
+                    raise TranslateError("%s: the request is issued inside a loop" % name)
+            elif lm.start() < pos:
+                raise TranslateError("%s: loop without braces before the request" % name)
+        method = ""
+        if callee == "performRequest":
+            lm = re.fullmatch(r'"([^"\\]*)"', args[0].strip())
+            if not lm:
+                raise TranslateError("%s: the method passed to performRequest is not a string literal" % name)
+            method = lm.group(1)
+        entries.append((name, callee, method, int(dm.group(1))))
+        # what else the entry point may throw: before the call (no request is issued at all) or after it (on the returned response)
+        for tm in re.finditer(r"\bthrow\b", body):
+            if tm.start() > pos:
+                g = re.search(r"if\s*\(\s*!\s*response\.success\(\)\s*\)\s*\{\s*throw\s+std::runtime_error\s*\(", body[pos:])
+                if not g or len(re.findall(r"\bthrow\b", body[pos:])) != 1:
+                    raise TranslateError("%s: a throw after the request that is not `if (!response.success()) throw std::runtime_error`" % name)
+                fx.setdefault("failsOnNon2xx", []).append(name)
     if not entries:
-        raise TranslateError("no public entry point calling performRequest(\"METHOD\", ...) found")
+        raise TranslateError("no public entry point found")
     fx["entries"] = entries
+    fx.setdefault("failsOnNon2xx", [])
+    if not re.search(r"bool\s+success\s*\(\s*\)\s*const\s*\{\s*return\s+statusCode\s*>=\s*200\s*&&\s*statusCode\s*<\s*300\s*;\s*\}", src):
+        raise TranslateError("Response::success() is not `statusCode >= 200 && statusCode < 300`")
     # ---- performRequest
     pb = cxxscan.function_body(src, "performRequest")
     if not re.search(r"\bint\s+attempt\s*=\s*0\s*;\s*while\s*\(\s*true\s*\)\s*\{", pb):
@@ -370,6 +425,46 @@ def extract(src):
     if not mm:
         raise TranslateError("acquireConnection: localhost connect cap not found")
     fx["localConnectCapMs"] = int(mm.group(1))
+    # ---- the time-out argument of every timed wait of the request path (R6)
+    waits = []
+    nl = norm(lb)
+    if "if(_config.leaseAcquireTimeout.count()>0){if(!_cv.wait_for(lock,_config.leaseAcquireTimeout,available)){throw" not in nl or \
+       "else{_cv.wait(lock,available);}" not in nl or len(re.findall(r"\bwait_for\b|\bwait_until\b", lb)) != 1:
+        raise TranslateError("acquireLease: the lease wait is not `wait_for(lock, _config.leaseAcquireTimeout, available)` (0 = untimed wait)")
+    waits.append(("lease", "leaseAcquireTimeout"))
+    na = norm(ab)
+    if 'autotimeout=(resolvedHost=="127.0.0.1"||resolvedHost=="::1")?std::min(_config.connectTimeout,std::chrono::milliseconds(%d)):_config.connectTimeout;' % fx["localConnectCapMs"] not in na or \
+       "_transport->connectSync(resolvedHost,parsedUrl.port,tlsMode,timeout);" not in na or len(re.findall(r"\btimeout\b", ab)) != 2:
+        raise TranslateError("acquireConnection: connectSync's time-out is not `timeout` = min(connectTimeout, cap) for a loopback address, connectTimeout otherwise")
+    waits.append(("connect", "localMinConnectTimeoutCap"))
+    eb = cxxscan.function_body(src, "executeRequest")
+    if len(re.findall(r"\bsendTimeout\b", eb)) != 3 or "std::chrono::millisecondssendTimeout=_config.requestTimeout;" not in norm(eb) or \
+       "_transport->receiveSync(sessionId,buffer,len,sendTimeout);" not in norm(eb):
+        raise TranslateError("executeRequest: receiveSync's time-out is not `sendTimeout` = _config.requestTimeout (assigned once)")
+    waits.append(("receive", "requestTimeout"))
+    waits.append(("probe", "zero"))     # residualDataPending: checked with the reuse decision
+    fx["timedWaits"] = waits
+    bm = re.search(r"\bchar\s+buffer\s*\[\s*(\d+)\s*\]\s*;", eb)
+    if not bm or "std::size_tlen=sizeof(buffer);" not in norm(eb):
+        raise TranslateError("executeRequest: receive buffer `char buffer[N]; len = sizeof(buffer)` not found")
+    fx["recvBufferSize"] = int(bm.group(1))
+    # ---- Transport::receiveSync hands over at least one byte whenever it reports success (so `isOk() && len == 0`, which takes no
+    # branch of the receive chain, cannot occur for len >= 1)
+    tsrc = read_transport(fx)
+    rb = cxxscan.function_body(tsrc, "receiveSync", signature_contains="void")
+    oks = [m_.start() for m_ in re.finditer(r"ReceiveResult::ok\s*\(", rb)]
+    gm = re.search(r"if\s*\(\s*!\s*buf->data\.empty\(\)\s*\)\s*\{", rb)
+    if len(oks) != 1 or not gm or not (gm.end() < oks[0] < cxxscan.match_brace(rb, gm.end() - 1)) or \
+       "std::size_tcopyLen=std::min(len,buf->data.size());" not in norm(rb) or "returnReceiveResult::ok(copyLen);" not in norm(rb):
+        raise TranslateError("Transport::receiveSync: success is not confined to `if (!buf->data.empty()) { copyLen = min(len, size); … return ok(copyLen); }`")
+    fx["receiveOkHasBytes"] = True
+    # ---- every exception type the model has to know
+    known_exn = {"HttpFramingError", "HttpRequestNotSentError", "std::runtime_error", "std::invalid_argument"}
+    used = [fx["urlFailThrow"], fx["leaseFailThrow"], fx["connectFailThrow"], fx["setSyncFailThrow"], fx["sendFailThrow"], fx["capThrow"]] + \
+        list(fx["framingFnThrows"]) + [t for _, _, t in fx["recvBranches"] if t] + [t for _, _, t in fx["preSendCatch"] if t]
+    for t in used:
+        if t not in known_exn:
+            raise TranslateError("exception type %s is thrown on the request path but is not one the model knows (%s)" % (t, sorted(known_exn)))
     return fx
 
 
@@ -414,12 +509,15 @@ def parse_retry_clause(cb):
     tail = rest[max(e1, e2) + 1:]
     if thrown_types(tail):
         raise TranslateError("performRequest: throw after the budget test")
-    m3 = re.search(r"int\s+backoffMs\s*=\s*\(\s*1\s*<<\s*attempt\s*\)\s*\*\s*(\d+)\s*\+\s*jitterDist\s*\(", tail)
+    m3 = re.search(r"int\s+backoffMs\s*=\s*\(\s*1\s*<<\s*std::min\s*\(\s*attempt\s*,\s*(\d+)\s*\)\s*\)\s*\*\s*(\d+)\s*\+\s*jitterDist\s*\(", tail)
+    m3u = re.search(r"int\s+backoffMs\s*=\s*\(\s*1\s*<<\s*attempt\s*\)\s*\*\s*(\d+)\s*\+\s*jitterDist\s*\(", tail)
     m4 = re.search(r"uniform_int_distribution\s*<\s*int\s*>\s*jitterDist\s*\(\s*(\d+)\s*,\s*(\d+)\s*\)", tail)
     m5 = re.search(r"sleep_for\s*\(\s*std::chrono::milliseconds\s*\(\s*backoffMs\s*\)\s*\)\s*;\s*attempt\s*\+\+\s*;\s*$", tail.strip())
-    if not (m3 and m4 and m5):
-        raise TranslateError("performRequest: back-off (`(1 << attempt) * B + jitter; sleep_for; attempt++`) not recognised")
-    r["backoffBase"] = int(m3.group(1))
+    if not ((m3 or m3u) and m4 and m5):
+        raise TranslateError("performRequest: back-off (`(1 << std::min(attempt, C)) * B + jitter; sleep_for; attempt++`) not recognised")
+    # shiftCap 0 = the exponent is not clamped (`1 << attempt`): int overflow from attempt 25 on — the model's no-overflow obligation fails
+    r["shiftCap"] = int(m3.group(1)) if m3 else 0
+    r["backoffBase"] = int(m3.group(2)) if m3 else int(m3u.group(1))
     r["jitterLo"], r["jitterHi"] = int(m4.group(1)), int(m4.group(2))
     return r
 
@@ -460,6 +558,26 @@ def extract_execute(src):
         pc.append((ty, "rethrow", "") if th[0] == "rethrow" else (ty, "wrap", th[0]))
     fx["preSendCatch"] = pc
     mid = eb[e1:s2]
+    # Between the two try blocks no explicit failure exit other than the send-failure branch exists; the only statements are the
+    # assembly of the request text and the sendSync call. (What can still escape here — std::bad_alloc while building the string,
+    # std::logic_error from sendSync when called on the client's own I/O thread, which runs no user code — is listed as an assumption.)
+    left = mid
+    for pat in (r"std::ostringstream\s+request\s*;", r"for\s*\(\s*const\s+auto\s*&\s*\[\s*name\s*,\s*value\s*\]\s*:\s*headers\s*\)\s*\{[^{}]*\}",
+                r"if\s*\(\s*!\s*body\.empty\(\)\s*\)\s*\{[^{}]*\}", r"request\s*<<[^;]*;", r"std::string\s+requestStr\s*=\s*request\.str\(\)\s*;",
+                r"auto\s+sendResult\s*=\s*_transport->sendSync\s*\([^;]*;", r"if\s*\(\s*sendResult\.isErr\(\)\s*\)\s*\{[^{}]*\}"):
+        left = re.sub(pat, " ", left, flags=re.S)
+    # plain local declarations (no call except std::max on configuration values)
+    rest = []
+    for st in left.split(";"):
+        st1 = st.strip()
+        if not st1:
+            continue
+        if re.fullmatch(r"(const\s+)?[\w:]+(\s*<[\w:,\s]*>)?\s+\w+(\s*\[\s*\d+\s*\])?(\s*=\s*(false|true|\d+|std::max\s*\(\s*_config\.[\w.]+\s*,\s*_config\.[\w.]+\s*\)))?", st1, re.S):
+            continue
+        rest.append(st1)
+    left = ";".join(rest)
+    if left.strip():
+        raise TranslateError("executeRequest: unexpected statement between the pre-send region and the receive loop: %r" % left.strip()[:120])
     mid_calls = calls_in(mid, interesting)
     if mid_calls != ["sendSync", "dropConnection"]:
         raise TranslateError("executeRequest: between the pre-send region and the receive loop the calls are %s (expected sendSync, dropConnection)" % mid_calls)
@@ -592,8 +710,12 @@ def render(fx):
     t += "namespace Iora.Gen.HttpRetry\n"
     t += "/-- string literals `isIdempotentMethod` compares with (exact `==`, joined by `||`) -/\n"
     t += "def idempotentMethods : List String := %s\n" % lean_strs(fx["idempotent"])
-    t += "/-- public entry points: (function, method literal passed to performRequest, default of `int retries`) -/\n"
-    t += "def entryPoints : List (String × String × Int) := [%s]\n" % ", ".join('("%s", "%s", %d)' % e for e in fx["entries"])
+    t += "/-- public entry points = every function with an `int retries` parameter except performRequest: (function, the ONE request-issuing\n"
+    t += "    call in its body, method literal if that call is performRequest, default of `int retries`). Checked by the translator: no try/catch,\n"
+    t += "    the call is not in a loop, and its budget argument is the caller's unmodified `retries`. -/\n"
+    t += "def entryPoints : List (String × String × String × Int) := [%s]\n" % ", ".join('("%s", "%s", "%s", %d)' % e for e in fx["entries"])
+    t += "/-- entry points that throw std::runtime_error when the returned response is not 2xx (`!response.success()`) -/\n"
+    t += "def entryFailsOnNon2xx : List String := %s\n" % lean_strs(fx["failsOnNon2xx"])
     t += "/-- exception classes declared in http_client.hpp with their single public base -/\n"
     t += "def exnBases : List (String × String) := %s\n" % lean_pairs(fx["bases"])
     t += "/-- performRequest: caught types in textual order, and what each clause does (`rethrow` | `retry`) -/\n"
@@ -605,6 +727,15 @@ def render(fx):
     t += "def budgetCmp : String := \"%s\"\n" % fx["retry"]["budgetCmp"]
     t += "/-- back-off: `(1 << attempt) * backoffBaseMs + uniform(jitterLo, jitterHi)` milliseconds -/\n"
     t += "def backoffBaseMs : Nat := %d\ndef jitterLo : Nat := %d\ndef jitterHi : Nat := %d\n" % (fx["retry"]["backoffBase"], fx["retry"]["jitterLo"], fx["retry"]["jitterHi"])
+    t += "/-- the exponent of the back-off is `std::min(attempt, backoffShiftCap)`; 0 = not clamped (`1 << attempt`) -/\n"
+    t += "def backoffShiftCap : Nat := %d\n" % fx["retry"]["shiftCap"]
+    t += "/-- time-out argument of every timed wait on the request path: (wait, expression). `localMinConnectTimeoutCap` =\n"
+    t += "    min(connectTimeout, localConnectCapMs) for a loopback address, connectTimeout otherwise; `zero` = the residual-data probe -/\n"
+    t += "def timedWaits : List (String × String) := %s\n" % lean_pairs(fx["timedWaits"])
+    t += "/-- `char buffer[N]` of executeRequest: one receiveSync hands over at most N bytes -/\n"
+    t += "def recvBufferSize : Nat := %d\n" % fx["recvBufferSize"]
+    t += "/-- Transport::receiveSync returns ok only from `if (!buf->data.empty())` with min(len, size) >= 1 bytes -/\n"
+    t += "def receiveOkHasBytes : Bool := %s\n" % lean_bool(fx["receiveOkHasBytes"])
     t += "/-- executeRequest: calls before the pre-send `try`, calls inside it, its catch clauses in order -/\n"
     t += "def beforePreSend : List String := %s\n" % lean_strs(fx["beforePreSend"])
     t += "def preSendCalls : List String := %s\n" % lean_strs(fx["preSendCalls"])
